@@ -141,6 +141,7 @@ class Body:
         self.vis = raw.get("vis")
         self.item_name = raw.get("item_name")
         self.derived = raw.get("automatically_derived", False)
+        self.helper = raw.get("helper", False)
         self.impl_trait = raw.get("impl_trait")
         self.self_ty = raw.get("self_ty")
         # debug names: local -> name for whole-local places; path places for closures
@@ -244,6 +245,8 @@ class Facts:
         self.items = raw["items"]
         self.bodies = {}
         self.body_list = []
+        from .inline import inline_helpers
+        inline_helpers(raw["bodies"])
         for b in raw["bodies"]:
             body = Body(b, self)
             # `const fn` is exported twice (runtime + const MIR); keep the first.
